@@ -102,7 +102,8 @@ Inductive op :=
   | KComp
   | KToComp
   | KRevComp
-  | KToRevComp.
+  | KToRevComp
+  | KView (n : N).
 
 Record state := {
   regs : list bits;
@@ -347,7 +348,14 @@ Definition step (st : state) (o : op) : res state :=
                    else [] in
       let cpart := if c_has_mask C then [] else
                    if B =? 4 then sep ++ [b2n (contains C a q)] else [] in
-      ret (emit st (base ++ kpart ++ cpart))
+      (* a DNA array converts to IUPAC and to text (From<&SeqArray<A>> / From<SeqArray<A>> for Seq<B>) *)
+      do vpart <- (if B =? 2
+                   then match mapM conv_iupac cs, mapM conv_text cs with
+                        | Some x, Some y => ret (sep ++ (nat2n (length x) :: x) ++ sep ++ (nat2n (length y) :: y))
+                        | _, _ => None
+                        end
+                   else ret []);
+      ret (emit st (base ++ kpart ++ cpart ++ vpart))
   | OXlate m d =>
       do s <- slice_of st d;
       let to_amino := SeqModel.to_amino C amino_codec in
@@ -456,6 +464,13 @@ Definition step (st : state) (o : op) : res state :=
   | KRevComp | KToRevComp =>
       do x <- krevcomp C (nn (kk st)) (wbits (kw st)) (kv st);
       ret (set_k st (kk st) (kw st) x)
+  | KView n =>
+      (* slice methods with the k-mer itself as receiver (Deref): len, iter, get(i) for i < n *)
+      do l <- kderef C (nn (kk st)) (wbits (kw st)) (kv st);
+      do t <- lencodes l;
+      do gs <- mapM (get_sym C l) (seq 0 (nn n));
+      ret (emit st (t ++ [777%N] ++
+                    concat (map (fun g => match g with Some c => [1%N; c] | None => [0%N] end) gs)))
   end.
 
 (* a panic ends the script; the flag records it *)
